@@ -123,7 +123,13 @@ def gen_case(rng, tier, i):
             break
         f, a, s = rng.choice(sl)
         tbl[f][a][s] = rng.choice(values(nf, AXES))
-    return {"fam": "C", "nfaces": nf, "axes": AXES, "fc": _strkeys({"face": tbl}), "ds_face": True}
+    case = {"fam": "C", "nfaces": nf, "axes": AXES, "fc": _strkeys({"face": tbl}), "ds_face": True}
+    if rng.random() < 0.2:
+        # the face coordinate need not be 0..n-1: the table then speaks in those labels
+        case["labels"] = rng.choice([[i + 1 for i in range(nf)], [10 * (i + 1) for i in range(nf)],
+                                     [nf - 1 - i for i in range(nf)]])
+    case["spell_seed"] = rng.randrange(1 << 30)     # which links / pairs are written as lists instead of tuples
+    return case
 
 
 def oracle(case):
@@ -174,7 +180,21 @@ def eval_case(case, drv):
     ds = xr.Dataset(coords=coords)
     gcoords = {"X": {"center": "xc", "left": "xg"}, "Y": {"center": "yc", "left": "yg"}}
     gcoords = {a: gcoords[a] for a in case["axes"]}
-    fc = {d: {int(f): {a: tuple(None if lk is None else tuple(lk) for lk in pr) for a, pr in ent.items()}
+    import random
+    labels = case.get("labels") or list(range(nf))
+    if case["ds_face"]:
+        coords["face"] = ("face", np.array(labels))
+        ds = xr.Dataset(coords=coords)
+
+    def lab(i):
+        return labels[i] if 0 <= i < nf else (max(labels) + 1 + i)        # a face that does not exist stays one
+    sp = random.Random(case.get("spell_seed", 0))
+    use_lists = "spell_seed" in case
+
+    def spell(x):
+        return list(x) if (use_lists and sp.random() < 0.3) else tuple(x)
+    fc = {d: {lab(int(f)): {a: spell(None if lk is None else spell([lab(int(lk[0])), lk[1], lk[2]]) for lk in pr)
+                            for a, pr in ent.items()}
               for f, ent in t.items()} for d, t in case["fc"].items()}
     try:
         xgcm.Grid(ds, coords=gcoords, face_connections=fc, autoparse_metadata=False)
